@@ -139,6 +139,17 @@ def work(item):
                 check_term(ctx(X, Y), part)
                 part.c['terms'] += 1
         return part
+    if item[0] == 'wrap':
+        _, n, lo, hi = item
+        part = core.Part()
+        a = alphabet('full')
+        with core.deadline(3600):
+            for term in itertools.islice(a.gen(n), lo, hi):
+                for kind in ('rctx', 'ctx'):
+                    for v in docalg.wrap_variants(term, kind):
+                        check_term(v, part)
+                        part.c['contextual_terms'] += 1
+        return part
     aname, n, lo, hi = item
     part = core.Part()
     a = alphabet(aname)
@@ -168,6 +179,16 @@ def plan(tier, seed):
         for lo, hi in core.chunks(nxs * nys, 12 if tier == 'quick' else 64):
             items.append(('contexts', ci, nx, ny, lo, hi))
     desc.append('%d contexts of 6-11 nodes x every pair of terms with <= %d and <= %d nodes (%d composed documents)' % (len(contexts()), nx, ny, len(contexts()) * nxs * nys))
+    kw = 3 if tier == 'quick' else 4
+    nw = 0
+    for n in range(1, kw + 1):
+        total = full.count(n)
+        nw += total
+        for lo, hi in core.chunks(total, 1 if total < 200 else 64):
+            items.append(('wrap', n, lo, hi))
+    desc.append('contextual: every full-algebra term of size <= %d (%d terms) with each single subterm position '
+                'in turn wrapped in a contextual returning it - once plainly, once with a function that first '
+                'runs complete unrelated layouts (re-entrancy)' % (kw, nw))
     if tier == 'quick':
         # seed-rotated contiguous slice of the next size (a subset of the thorough tier)
         full.terms(5)
@@ -205,7 +226,7 @@ def run(tier, seed):
                 'transition is one SDoc token matched against the reference layout set; '
                 'non-trivial = terms for which >= 2 distinct layouts were observed',
         'spaces': desc,
-        'terms': a.c['terms'],
+        'terms': a.c['terms'], 'contextual_terms': a.c['contextual_terms'],
         'reference_layouts_enumerated': a.c['reference_layouts'],
         'distinct_observed_layouts': a.c['observed_layouts'],
     }
